@@ -33,10 +33,15 @@ RULE = ("exhaustive product of the generated style tables: every diagram class o
         "symbols, 10x10 ports) in several variants (plain / label / label+children+features+floating labels+hidden sibling "
         "/ style overrides: stroke, gradient fill, text_fill, every marker factory on marker-start/-end); labels drawn by a "
         "seeded generator over the XML-legal alphabet (markup characters, tabs/newlines, non-ASCII, non-BMP); plus all "
-        "diagrams of the corpus models (monitor only). distinct = distinct (diagram class, kind, style class, variant); "
-        "non-trivial = all of them (every case draws at least one element)")
+        "diagrams of the corpus models (monitor only); histories: seeded diagrams of 2-7 elements that share markers, strokes, "
+        "gradients, icons and icon dependencies (the <defs> section compared as a sequence); label builders of 1-3 seeded labels "
+        "in boxes from negative to unbounded size (render_hbounded_lines); seeded strings through svgwrite's text/attribute "
+        "serialisation. distinct = distinct (diagram class, kind, style class, variant) resp. distinct generated input; "
+        "non-trivial = all of them (every case draws at least one element / renders at least one label)")
 ASSUMPTIONS = [
-    "svgwrite's serialisation/escaping and its attribute validation are exercised, not modelled (parameters)",
+    "svgwrite's escaping is assumed to be xml.etree's _escape_cdata/_escape_attrib (Model/SvgText.lean) and compared with the real "
+    "TSpan/Group serialisation on every run; its attribute validation (beyond rx/ry on <use>) is exercised, not modelled",
+    "style-override colours are opaque RGB and gradients have two stops (what the aird parser produces; others make the renderer raise)",
     "PIL font metrics are a parameter: text wrapping is proved for every extent function and compared through an extent table",
     "label geometry (positions of text and icons) is not modelled: C18 is partial for label placement",
     "style-override values are colours (RGB), gradients (lists of RGB), numbers and names of existing marker factories; "
@@ -51,13 +56,20 @@ MANIFEST = dict(
           "table, every diagram class, object and style override for which drawing succeeds, every referenced id (marker, "
           "gradient, symbol, references inside deployed symbols) is deployed; one group per visible element in order with "
           "its id and class; hidden elements absent; view box = rounded viewport -10/-10/+20/+20; word_wrap preserves the "
-          "word sequence for every extent function and vertical overflow only truncates and appends '...'. The live STYLES, "
+          "word sequence for every extent function and vertical overflow only truncates and appends '...'. Round 3: the <defs> "
+          "section as a state machine (Drawing._deploy_defs with defs_ids, _add_decofactory with deco_cache): every reference is "
+          "defined through every shortcut, no child of <defs> is deployed twice, each id a group references is the id of exactly "
+          "one child, _generate_id is injective; every element without style overrides draws for every diagram class and style "
+          "class (or is the known rx/ry rejection); render_hbounded_lines returns the label's words or a marked prefix, dots iff "
+          "overflow, no character invented; given xml.etree's escaping the text and attribute nodes are XML-safe. The live STYLES, "
           "marker and symbol tables are generated into Lean with kernel-checked well-formedness obligations. Tie: exhaustive "
           "render-and-reparse of every (diagram class x kind x style class) combination against the model, plus an independent "
           "monitor on generated and corpus diagrams."),
     design_ref="§6 C18",
-    note=("Partial for label placement: PIL metrics and svgwrite escaping/validation are parameters; label fidelity is checked by "
-          "the monitor on seeded labels, not proved end-to-end. Trusted: Lean kernel, lxml re-parse, harness diagram construction."),
+    note=("Partial for label placement: PIL metrics are a parameter, svgwrite's escaping is a stated assumption compared on every run; "
+          "success of drawing with style overrides is established by the exhaustive run, not proved. Ids defined inside symbol "
+          "fragments are not unique (brown_oval, identical definitions): observation, kept as _fails/_partial theorems. "
+          "Trusted: Lean kernel, lxml re-parse, harness diagram construction."),
     technique="Lean 4 proof (generic closure theorem + generated tables checked by decide +kernel; induction for wrapping) + exhaustive render/re-parse correspondence",
 )
 
@@ -681,7 +693,8 @@ def run(ctx: Ctx) -> Outcome:
                  " ".join(ctx.rng.choice(["ab", "cde", "Wwwwwwwwwwwwwwwwwwwwwwwwwwwwwwwwww", "i", "x-y", "•", "-"]) for _ in range(ctx.rng.randint(1, 9)))
                  + ctx.rng.choice(["", "\n", "\n\nzz", " \n  indented line"]) for _ in range(nlab)]
         rect_w = ctx.rng.choice([-5, 0, 3, 20, 21, 22, 40, 80, 148, 1500]) + ctx.rng.choice([0, 0, 0.5])
-        rect_h = ctx.rng.choice([-1, 0, 5, 14, 15, 16, 30, 31, 45, 69, 200, float("inf")])
+        # line heights are multiples of 10/7: 30 = 21 units and 200 = 140 units are exact float boundaries (see `tie` below)
+        rect_h = ctx.rng.choice([-1, 0, 5, 14, 15, 16, 29, 30, 31, 45, 69, 201, float("inf")])
         render_icon = ctx.rng.random() < 0.5
         b = sdrawing.LabelBuilder(rect_w, rect_h, [{"text": t_} for t_ in texts], None, None, icon=render_icon)
         try:
@@ -697,7 +710,20 @@ def run(ctx: Ctx) -> Outcome:
         hval = 10 ** 9 if rect_h == float("inf") else rect_h
         label_reqs.append({"op": "svg.label", "ext": ext_table(cands), "spaces": spaces, "labels": [t_.splitlines() for t_ in texts],
                            "rectW": frac(rect_w), "rectH": frac(hval), "pad": frac(1 if render_icon else 0), "icon": frac(20 if render_icon else 0)})
-        label_impl.append((texts, (rect_w, rect_h, render_icon), real))
+        # the code adds float line heights, the model exact rationals: when a partial sum lands on the height up to rounding
+        # (|sum - height| < 1e-9) the `>` test is decided by the rounding of the float sum -> declared tie, not compared
+        tie = False
+        if real != "AssertionError":
+            for t_ in texts:
+                th = 0.0
+                for ln in chelpers.word_wrap(t_, rect_w - (21 if render_icon else 0)):
+                    lh = chelpers.extent_func(ln)[1]
+                    if abs(th + lh - rect_h) < 1e-9:
+                        tie = True
+                    if th + lh > rect_h:
+                        break
+                    th += lh
+        label_impl.append((texts, (rect_w, rect_h, render_icon), real, tie))
         out.case(("label-lines", i, tuple(texts), rect_w, rect_h, render_icon), None)
         # monitor, straight from the statement: the rendered words are, label by label, the label's words or a marked prefix
         if real != "AssertionError":
@@ -765,9 +791,11 @@ def run(ctx: Ctx) -> Outcome:
                 out.hit("defs-model:" + b)
             out.extra["defs_sequence_cases"] = out.extra.get("defs_sequence_cases", 0) + 1
             out.extra["defs_sequence_max_children"] = max(out.extra.get("defs_sequence_max_children", 0), len(d["defs"]))
-        for (texts, par, real), ans in zip(label_impl, common.model(label_reqs, driver="Svg")):
+        for (texts, par, real, tie), ans in zip(label_impl, common.model(label_reqs, driver="Svg")):
             m = ans.get("ok")
-            if m is None:
+            if tie:
+                out.hit("label-model:float-boundary-tie(not compared)")
+            elif m is None:
                 out.disagree("driver-error", {"labels": texts, "param": par}, real, ans)
             elif "assert" in m:
                 if real != "AssertionError":
